@@ -46,6 +46,9 @@ def long_inputs(ctx):
     n_small = [30, 200, 1500]
     n_big = [5000, 20000] if ctx.thorough else []
     out = []
+    # digit runs beyond the interpreter's int <-> str conversion limit (4300 digits): a literal's TEXT is never a reason for a foreign exception
+    for n in (4299, 4301, 5000):
+        out += ["1" * n, "a eq " + "9" * n, "1." + "5" * n, "-" + "7" * n + " lt x", "x in (1, " + "0" * n + "1)", "1e" + "9" * n, "f(" + "3" * n + ")"]
     for n in n_small + n_big:
         out += ["'" + "x" * n, "'" + "x''" * n, "a eq '" + "ab" * n, "geography'" + "y" * n, "'" + "''" * n, "'" + "''" * n + "'",
                 "(" * n, "(" * n + "1" + ")" * n, "not " * n + "a", "-" * n + "a", "a" + " add a" * n, "a" + " and a" * n + " or",
